@@ -593,7 +593,11 @@ func checkOp(sp *spec.Spec, sv *spec.Service, m *spec.Method, op *DocOp, docName
 	}
 	// response status codes
 	wantCodes := map[string]bool{}
-	if len(h.Responses) == 0 {
+	if m.Stream != "" {
+		// a websocket endpoint answers a successful handshake with 101 Switching Protocols (RFC 6455 §4.2.2);
+		// the streamed results are messages, not HTTP responses
+		wantCodes["101"] = true
+	} else if len(h.Responses) == 0 {
 		if m.Result == nil {
 			wantCodes["204"] = true
 		} else {
